@@ -100,7 +100,13 @@ pub enum Fault {
     DupLines(usize, usize),
     DelLines(usize, usize),
     MoveLines(usize, usize, usize),
+    /// One character of a text artefact comes back as a multi-byte character (a re-encoding
+    /// accident: U+FFFD written for an unreadable byte, a smart quote, an accented letter): the
+    /// text stays valid UTF-8 but byte offsets no longer equal character offsets.
+    WideChar(usize, u8),
 }
+
+const WIDE: [&str; 6] = ["\u{FFFD}", "é", "€", "𝄞", "éé", "’"];
 
 impl Fault {
     fn kind(&self) -> &'static str {
@@ -117,6 +123,7 @@ impl Fault {
             Fault::DupLines(_, _) => "duplicated-lines",
             Fault::DelLines(_, _) => "deleted-lines",
             Fault::MoveLines(_, _, _) => "moved-lines",
+            Fault::WideChar(_, _) => "wide-character",
         }
     }
 }
@@ -177,6 +184,21 @@ pub fn apply_fault(bytes: &[u8], alt: Option<&[u8]>, f: &Fault) -> Vec<u8> {
             }
         }
         Fault::Append(g) => v.extend(g),
+        Fault::WideChar(at, which) => {
+            if n > 0 {
+                let wide = WIDE[*which as usize % WIDE.len()].as_bytes();
+                let mut a = at % n;
+                // the whole character at that position (valid UTF-8 stays valid)
+                while a > 0 && (v[a] & 0xC0) == 0x80 {
+                    a -= 1;
+                }
+                let mut e = a + 1;
+                while e < n && (v[e] & 0xC0) == 0x80 {
+                    e += 1;
+                }
+                v.splice(a..e, wide.iter().copied());
+            }
+        }
         Fault::DupLines(a, l) | Fault::DelLines(a, l) | Fault::MoveLines(a, l, _) => {
             // split keeping the terminators
             let mut lines: Vec<&[u8]> = bytes.split_inclusive(|b| *b == b'\n').collect();
@@ -679,7 +701,7 @@ fn exhaustive_plan() -> Vec<(usize, usize)> {
     let mut plan = vec![];
     for (i, a) in corpus().iter().enumerate() {
         if a.bytes.len() <= EXHAUSTIVE_MAX && !a.bytes.is_empty() {
-            let cases = a.bytes.len() * 9;
+            let cases = a.bytes.len() * if a.kind.is_text() { 10 } else { 9 };
             for c in 0..cases.div_ceil(CHUNK) {
                 plan.push((i, c));
             }
@@ -694,6 +716,8 @@ fn exhaustive_case(a: &Artefact, n: usize) -> Option<Fault> {
         Some(Fault::Truncate(n))
     } else if n < len * 9 {
         Some(Fault::FlipBit(n - len))
+    } else if n < len * 10 && a.kind.is_text() {
+        Some(Fault::WideChar(n - len * 9, 0))
     } else {
         None
     }
@@ -718,11 +742,17 @@ fn gen_fault(rng: &mut Rng, a: &Artefact) -> Fault {
         // cut short, or written twice (a block boundary falling on a token boundary).
         let quotes: Vec<usize> = a.bytes.iter().enumerate().filter(|(_, b)| **b == b'"').map(|(i, _)| i).collect();
         if quotes.len() >= 2 {
-            let q = rng.usize_below(quotes.len() - 1);
+            let mut q = rng.usize_below(quotes.len() - 1);
+            // half of the time a literal introduced by a sigil (`#"…"`, `@"…"`), if there is one
+            let sigils: Vec<usize> = (0..quotes.len() - 1).filter(|i| quotes[*i] > 0 && matches!(a.bytes[quotes[*i] - 1], b'#' | b'@')).collect();
+            if !sigils.is_empty() && rng.chance(1, 2) {
+                q = *rng.pick(&sigils);
+            }
             let (open, close) = (quotes[q], quotes[q + 1]);
             if close > open + 1 {
                 let len = close - open - 1;
-                return match rng.below(4) {
+                return match rng.below(6) {
+                    4 | 5 => Fault::WideChar(open + 1 + rng.usize_below(len), rng.below(WIDE.len() as u64) as u8),
                     0 => Fault::DelRange(open + 1, len),
                     1 => Fault::DelRange(open + 2, len.saturating_sub(1).max(1)),
                     2 => Fault::DupRange(open + 1, len),
@@ -740,6 +770,9 @@ fn gen_fault(rng: &mut Rng, a: &Artefact) -> Fault {
             1 => Fault::DelLines(at, len),
             _ => Fault::MoveLines(at, len, rng.usize_below(lines)),
         };
+    }
+    if a.kind.is_text() && rng.chance(1, 12) {
+        return Fault::WideChar(pos(rng), rng.below(WIDE.len() as u64) as u8);
     }
     match rng.below(if a.alt.is_some() { 12 } else { 11 }) {
         0 | 1 => Fault::Truncate(pos(rng)),
